@@ -1128,6 +1128,8 @@ def run(ck: common.Check):
                 if (nv_m == "ok") != (nv_i == "ok") or (nv_m in ("ValueError", "FileNotFoundError") and nv_m != nv_i):
                     ck.corr_broken("C04:readerInit(validate=False)", {"label": label, "target": t}, nv_i, nv_m)
     ck.extra["metadata_readings_cross_checked"] = n_meta_checked
+    from harness.corr import _c04_hist   # histories validate; foreign edit; validate … on one path / store object
+    _c04_hist.run_stream(ck, drv)
     ck.extra["explanation"] = ("proof: C04_sound_complete / C04_error_class / C04_no_other_exception / C04_reader_outcome hold for "
                                "every abstract target; the model is tied to the code by the single-fault catalogue correspondence; "
                                "corrupt zarr metadata documents are explored without a model (known finding)")
@@ -1148,6 +1150,9 @@ def replay(rp):
         print("REPLAY: no failing input was found; the named obligation / correspondence no longer checks")
         return 1
     c = rp["case"]
+    if "history" in c:
+        from harness.corr import _c04_hist
+        return _c04_hist.replay_case(c)
     t = c["target"]
     im = impl_obs(t)
     want, why = oracle2(t)
